@@ -84,7 +84,7 @@ type PkgContracts struct {
 	FreshCalls map[string]bool // callee texts whose results are assumed fresh by the ownership rule (e.g. decoded beacon API responses)
 }
 
-var reFunc = regexp.MustCompile(`^func\s+(?:\(\s*(?:\w+\s+)?\*?([\w.]+)(?:\[[^\]]*\])?\s*\)\s*)?([\w./$]+)\s*$`)
+var reFunc = regexp.MustCompile(`^func\s+(?:\(\s*(?:\w+\s+)?\*?([\w.]+)(?:\[[^\]]*\])?\s*\)\s*)?([\w./$*]+)\s*$`)
 var reSpec = regexp.MustCompile(`^spec\s+(?:opaque\s+)?func\s+(\w+)\s*\(([^)]*)\)\s*([^=]*?)\s*(?:=\s*(.*))?$`)
 
 // ParseContracts reads <dir>/verif_contracts.go (and verif_contracts_*.go).
